@@ -25,16 +25,16 @@ Proof.
     cbn [rr_types] in HW.
     destruct (go_ParseRR fuel body off) as [[rr okr]|] eqn:PR; [|discriminate].
     destruct okr; [|discriminate].
-    destruct (rr_types fuel (length ts) body (T_RR_End rr)) as [[ts' e']|] eqn:RT; [|discriminate].
+    destruct (rr_types fuel (length ts) body (T_wire_RR_End rr)) as [[ts' e']|] eqn:RT; [|discriminate].
     injection HW as Ht Hts He. subst t ts' e'.
     cbn [go_prepareWireServe_loop1]. rewrite PR.
     destruct (Z.ltb_spec i n); [|lia].
     cbn [negb]. cbn [walk_model].
-    assert (IH' := fun fl hq hc => IH (length ts) lf (i + 1)%Z body (T_RR_End rr) fl hq hc e eq_refl ltac:(lia) ltac:(lia) RT).
+    assert (IH' := fun fl hq hc => IH (length ts) lf (i + 1)%Z body (T_wire_RR_End rr) fl hq hc e eq_refl ltac:(lia) ltac:(lia) RT).
     destruct (i <? answered)%Z; cbn [andb];
-      destruct ((T_RR_Type rr =? 46) || (T_RR_Type rr =? 47) || (T_RR_Type rr =? 50)); cbn [andb];
+      destruct ((T_wire_RR_Type rr =? 46) || (T_wire_RR_Type rr =? 47) || (T_wire_RR_Type rr =? 50)); cbn [andb];
       destruct (i <? Z.of_N (T_Header_ANCount h))%Z; cbn [andb];
-      destruct (T_RR_Type rr =? T_wire_Question_Qtype q); destruct (T_RR_Type rr =? 5); apply IH'.
+      destruct (T_wire_RR_Type rr =? T_wire_Question_Qtype q); destruct (T_wire_RR_Type rr =? 5); apply IH'.
 Qed.
 
 Lemma walk_model_spec an answered qtype : forall ts i fl hq hc,
@@ -98,7 +98,7 @@ Proof.
     intros k. revert ts e. induction k as [|k IH]; intros ts e off H.
     - cbn in H. now injection H as <- <-.
     - cbn in H. destruct (go_ParseRR fuel body off) as [[rr [|]]|]; try discriminate.
-      destruct (rr_types fuel k body (T_RR_End rr)) as [[ts' e']|] eqn:R; [|discriminate].
+      destruct (rr_types fuel k body (T_wire_RR_End rr)) as [[ts' e']|] eqn:R; [|discriminate].
       injection H as <- <-. cbn. f_equal. eapply IH. exact R. }
   replace (Z.to_nat (Z.of_N an + Z.of_N ns + Z.of_N ar)) with k by (unfold k; lia).
   rewrite (gen_prepare_loop fuel (Z.of_N an + Z.of_N ns + Z.of_N ar)%Z h true q (Z.of_N an + Z.of_N ns)%Z ts k (S k) 0%Z body
